@@ -60,3 +60,20 @@ Section LogWarp.
     rewrite exp_ln by lra. unfold arg. field. lra.
   Qed.
 End LogWarp.
+
+(* every finite label equal (labels_min = labels_max): the source guards the division (Gen/Warpers.v: log_warp_constant_fn is
+   Some formula; None would mean 0 / 0) and each label gets the value of the best one, 1/2; un-warping gives the label back *)
+Lemma log_warp_constant_is_half : forall o mx : R,
+  match log_warp_constant_fn with Some f => f o mx mx = 1 / 2 | None => False end.
+Proof.
+  intros o mx. simpl.
+  replace ((mx - mx) / 1) with 0 by (unfold Rdiv; rewrite Rinv_1; ring).
+  rewrite Rmult_0_l, Rplus_0_r, ln_1. unfold Rdiv. rewrite Rmult_0_l. ring.
+Qed.
+
+Lemma log_unwarp_constant : forall o mx : R, log_unwarp_fn o mx mx (1 / 2) = mx.
+Proof.
+  intros o mx. unfold log_unwarp_fn.
+  replace (1 / 2 - 1 / 2) with 0 by lra. rewrite Rmult_0_r, exp_0.
+  replace (mx - mx) with 0 by ring. unfold Rdiv. rewrite Rmult_0_r, Rmult_0_l. ring.
+Qed.
